@@ -139,8 +139,16 @@ func (*recAppV1) AppendExemplar(r storage.SeriesRef, _ labels.Labels, _ exemplar
 	return r, nil
 }
 
-func (*recAppV1) AppendHistogram(r storage.SeriesRef, _ labels.Labels, _ int64, _ *histogram.Histogram, _ *histogram.FloatHistogram) (storage.SeriesRef, error) {
-	return r, errors.New("h_c37: unexpected histogram")
+func histSum(h *histogram.Histogram, fh *histogram.FloatHistogram) float64 {
+	if h != nil {
+		return h.Sum
+	}
+	return fh.Sum
+}
+
+// native histograms are recorded like float samples, with their sum as the value
+func (a *recAppV1) AppendHistogram(r storage.SeriesRef, l labels.Labels, t int64, h *histogram.Histogram, fh *histogram.FloatHistogram) (storage.SeriesRef, error) {
+	return a.s.append(a.b, r, l, t, histSum(h, fh))
 }
 
 func (*recAppV1) AppendHistogramSTZeroSample(r storage.SeriesRef, _ labels.Labels, _, _ int64, _ *histogram.Histogram, _ *histogram.FloatHistogram) (storage.SeriesRef, error) {
@@ -168,7 +176,7 @@ func (v recV2) AppenderV2(context.Context) storage.AppenderV2 {
 
 func (a *recAppV2) Append(ref storage.SeriesRef, ls labels.Labels, _, t int64, v float64, h *histogram.Histogram, fh *histogram.FloatHistogram, _ storage.AOptions) (storage.SeriesRef, error) {
 	if h != nil || fh != nil {
-		return 0, errors.New("h_c37: unexpected histogram")
+		v = histSum(h, fh)
 	}
 	return a.s.append(a.b, ref, ls, t, v)
 }
@@ -189,6 +197,8 @@ type stepIn struct {
 	Kind     string  `json:"kind"` // body | fail | fail-body-size | gone
 	Body     string  `json:"body,omitempty"`
 	Bad      bool    `json:"bad_tail,omitempty"`
+	BodyHex  string  `json:"protobuf_body_hex,omitempty"`
+	raw      []byte  // protobuf body (delimited MetricFamily messages)
 	entries  []entry
 	batches  []*batchObs
 	failBody bool
@@ -209,6 +219,8 @@ type caseCfg struct {
 	V2          bool     `json:"appender_v2"`
 	Rules       []string `json:"metric_relabel"`
 	TargetA     bool     `json:"target_label_a"`
+	Proto       bool     `json:"protobuf,omitempty"` // protobuf exposition with native histograms
+	BucketLimit int      `json:"native_histogram_bucket_limit,omitempty"`
 }
 
 type desc struct {
@@ -253,6 +265,11 @@ func (c caseCfg) scrapeConfig() *config.ScrapeConfig {
 		t := true
 		sc.ExtraScrapeMetrics = &t
 	}
+	if c.Proto {
+		t := true
+		sc.ScrapeNativeHistograms = &t
+		sc.NativeHistogramBucketLimit = uint(c.BucketLimit)
+	}
 	for _, r := range c.Rules {
 		sc.MetricRelabelConfigs = append(sc.MetricRelabelConfigs, mkRule(r))
 	}
@@ -269,13 +286,14 @@ func (c caseCfg) targetLabels() labels.Labels {
 // ---------------------------------------------------------------- running a history on the real loop
 
 type runner struct {
-	cfg   caseCfg
-	pool  []string
-	store *recStore
-	loop  *scrape.VerifC37Loop
-	mut   []int64 // per pool met: 0 drop, 1 reject, k+2 keep label set k
-	rep   []int64
-	wall  int64
+	cfg    caseCfg
+	pool   []string
+	metIdx map[string]int // protobuf histories: metric text -> pool index (pool grows as texts appear)
+	store  *recStore
+	loop   *scrape.VerifC37Loop
+	mut    []int64 // per pool met: 0 drop, 1 reject, k+2 keep label set k
+	rep    []int64
+	wall   int64
 }
 
 func newRunner(cfg caseCfg, pool []string) *runner {
@@ -295,7 +313,7 @@ func newRunner(cfg caseCfg, pool []string) *runner {
 	if err != nil {
 		panic(err)
 	}
-	r := &runner{cfg: cfg, pool: pool, store: st, loop: l, wall: time.Now().UnixMilli() - 1000}
+	r := &runner{cfg: cfg, pool: pool, store: st, loop: l, wall: time.Now().UnixMilli() - 1000, metIdx: map[string]int{}}
 	// relabeling oracle: parse each metric text with the real parser, run the loop's own
 	// sampleMutator and the checks of an uncached series
 	for _, m := range pool {
@@ -356,7 +374,11 @@ func (r *runner) step(s *stepIn) {
 	at := time.UnixMilli(s.T)
 	switch s.Kind {
 	case "body":
-		r.loop.ScrapeAndReport(at, []byte(s.Body), "text/plain", nil)
+		if s.raw != nil {
+			r.loop.ScrapeAndReport(at, s.raw, protoContentType, nil)
+		} else {
+			r.loop.ScrapeAndReport(at, []byte(s.Body), "text/plain", nil)
+		}
 	case "fail":
 		r.loop.ScrapeAndReport(at, nil, "", errors.New("connection refused"))
 	case "fail-body-size":
@@ -434,7 +456,7 @@ func (r *runner) term(id int, steps []*stepIn) string {
 				}
 				fmt.Fprintf(&sb, "e %d %d %d", e.met+1, ts, e.val)
 			}
-			fmt.Fprintf(&sb, "] %s %d", gallina.Bool(s.Bad), len(s.Body))
+			fmt.Fprintf(&sb, "] %s %d", gallina.Bool(s.Bad), len(s.Body)+len(s.raw))
 		case "fail":
 			fmt.Fprintf(&sb, "sf %d %s false", t, ints(s.GC))
 		case "fail-body-size":
@@ -682,7 +704,7 @@ func classify(run *runner, steps []*stepIn, m *gallina.Meta) string {
 		}
 	}
 	for _, s := range steps {
-		if s.Kind != "body" || len(s.Body) == 0 {
+		if s.Kind != "body" || len(s.Body)+len(s.raw) == 0 {
 			continue
 		}
 		kept, failed := 0, s.Bad // an unparsable tail fails after every line was processed
@@ -730,6 +752,7 @@ func main() {
 	id := 0
 	emit := func(run *runner, steps []*stepIn, corpus string) {
 		shape := classify(run, steps, meta)
+		limitCheck(run, steps, id, meta)
 		cf.Add(run.term(id, steps))
 		meta.Case(id, desc{Shape: shape, Corpus: corpus, Cfg: run.cfg, Pool: run.pool, Steps: steps})
 		meta.Evaluations++
@@ -742,7 +765,7 @@ func main() {
 		markers, failures := 0, 0
 		var key strings.Builder
 		for _, s := range steps {
-			key.WriteString(s.Kind + s.Body + fmt.Sprint(s.GC) + "|")
+			key.WriteString(s.Kind + s.Body + s.BodyHex + fmt.Sprint(s.GC) + "|")
 			if len(s.batches) > 1 || strings.HasPrefix(s.Kind, "fail") {
 				failures++
 			}
@@ -790,6 +813,11 @@ func main() {
 		}
 		run := newRunner(cfg, pool)
 		steps := genAndRun(r, run, 10+r.Intn(maxSteps-9), plain, meta)
+		emit(run, steps, "")
+	}
+	for i := 0; i < f.Count(40, 400); i++ {
+		r := gen.Fork(f.Seed, 1000000+i)
+		run, steps := genProtoCase(r, id, meta)
 		emit(run, steps, "")
 	}
 	cf.Flush()
